@@ -567,6 +567,9 @@ class SimQueue:
                 raise _rqueue.Full
         self._q.append(item)
         self._unfinished += 1
+        log = self.__dict__.get("_put_log")
+        if log is not None:
+            log.append(item)          # harness feature: observed order of put()
         k = _current
         if k is not None:
             k.maybe_yield()
